@@ -91,15 +91,21 @@ Section BuildSem.
     x < i /\ val a i r = o_un O op (val a x r).
   Proof.
     intros Hwf Hi Hn. pose proof (arena_wf_nth a i Hwf Hi) as Hw; rewrite Hn in Hw; simpl in Hw.
+    destruct Hw as [Hw _].
     split; [exact Hw|]. rewrite val_node by exact Hi; rewrite Hn; simpl.
     rewrite getv_vals_firstn by lia; reflexivity.
   Qed.
+
+  Lemma shape_unary_args (a : arena) i op x : arena_wf a -> i < length a -> getn a i = NUnary op x -> args op = Some 1.
+  Proof. intros Hwf Hi Hn. pose proof (arena_wf_nth a i Hwf Hi) as Hw; rewrite Hn in Hw; apply Hw. Qed.
+  Lemma shape_binary_args (a : arena) i op x y : arena_wf a -> i < length a -> getn a i = NBinary op x y -> args op = Some 2.
+  Proof. intros Hwf Hi Hn. pose proof (arena_wf_nth a i Hwf Hi) as Hw; rewrite Hn in Hw; apply Hw. Qed.
 
   Lemma val_binary a i op x y r : arena_wf a -> i < length a -> getn a i = NBinary op x y ->
     x < i /\ y < i /\ val a i r = o_bin O op (val a x r) (val a y r).
   Proof.
     intros Hwf Hi Hn. pose proof (arena_wf_nth a i Hwf Hi) as Hw; rewrite Hn in Hw; simpl in Hw.
-    destruct Hw as [Hx Hy]. repeat split; auto.
+    destruct Hw as (Hx & Hy & _). repeat split; auto.
     rewrite val_node by exact Hi; rewrite Hn; simpl.
     rewrite !getv_vals_firstn by lia; reflexivity.
   Qed.
@@ -159,7 +165,7 @@ Section BuildSem.
     intros Hwf Hl Hop. unfold mk_unary. rewrite Hop.
     assert (Hd : ok_result a (push a (NUnary op l)) (fun r => o_un O op (val a l r))).
     { apply ok_push; simpl; auto. }
-    destruct (getn a l) as [c|o|o x|o x y|k|x y z t|v e t|] eqn:Hn.
+    destruct (getn a l) as [c|o|o x|o x y|k|x' y' z' t'|x y z t|v e t|] eqn:Hn.
     - apply ok_push; simpl; auto. intros r. rewrite (val_const a l c r Hl Hn); reflexivity.
     - destruct op; exact Hd.
     - destruct op; try exact Hd.
@@ -172,6 +178,7 @@ Section BuildSem.
         destruct (val_unary a l _ x r Hwf Hl Hn) as [_ ->]; symmetry).
         * apply (L_abs_square LAWS).
         * apply (L_abs_abs LAWS).
+    - destruct op; exact Hd.
     - destruct op; exact Hd.
     - destruct op; exact Hd.
     - destruct op; exact Hd.
@@ -200,8 +207,8 @@ Section BuildSem.
                   (fun e => o_bin O op' (val a l' e) (val a r' e)))
       by (intros op' l' r' Hop' Hl' Hr'; apply IH; auto).
     all: cbn [mk_binary]; rewrite Hop.
-    all: destruct (getn a l) as [c1|o1|o1 x1|o1 x1 y1|k1|x1 y1 z1 t1|v1 e1 t1|] eqn:Hnl;
-         destruct (getn a r) as [c2|o2|o2 x2|o2 x2 y2|k2|x2 y2 z2 t2|v2 e2 t2|] eqn:Hnr.
+    all: destruct (getn a l) as [c1|o1|o1 x1|o1 x1 y1|k1|x1' y1' z1' t1'|x1 y1 z1 t1|v1 e1 t1|] eqn:Hnl;
+         destruct (getn a r) as [c2|o2|o2 x2|o2 x2 y2|k2|x2' y2' z2' t2'|x2 y2 z2 t2|v2 e2 t2|] eqn:Hnr.
     all: try (apply ok_push; simpl; auto; intros e;
               rewrite (val_const a l c1 e Hl Hnl), (val_const a r c2 e Hr Hnr); reflexivity).
     all: destruct op; try discriminate Hop; try exact Hd.
@@ -246,4 +253,10 @@ Section BuildSem.
               end; fail).
   Qed.
 
+  Corollary bin_sem a op l r :
+    arena_wf a -> l < length a -> r < length a -> args op = Some 2 ->
+    ok_result a (mk_bin O a op l r) (fun e => o_bin O op (val a l e) (val a r e)).
+  Proof. intros; unfold mk_bin; apply binary_sem; assumption. Qed.
+
 End BuildSem.
+Global Opaque mk_bin.
